@@ -421,4 +421,234 @@ theorem newChunks_res {L R : List α} (es : List (Edit α)) (h : EditScript.Vali
         by show produced [] = span R 1 1; rw [span_self]; rfl⟩,
       GapEq.refl .., GapEq.refl .., by omega, by omega, by intro e he; cases he⟩
 
+
+/-! ## AddContext -/
+
+theorem commonPrefix_spec [DecidableEq α] : ∀ (n : Nat) (a b : List α),
+    (commonPrefix n a b).length ≤ n ∧ commonPrefix n a b <+: a ∧ commonPrefix n a b <+: b
+  | 0, a, b => by simp [commonPrefix]
+  | n + 1, [], b => by simp [commonPrefix]
+  | n + 1, x :: a, [] => by simp [commonPrefix]
+  | n + 1, x :: a, y :: b => by
+    rw [commonPrefix]
+    by_cases h : x = y
+    · subst h
+      obtain ⟨h1, h2, h3⟩ := commonPrefix_spec n a b
+      simp only [if_true, List.length_cons, List.cons_prefix_cons, true_and]
+      exact ⟨by omega, h2, h3⟩
+    · simp [h]
+
+/-- `[Emit p]` unless `p` is empty -/
+def emitOpt (p : List α) : List (Edit α) := if p = [] then [] else [⟨.emit, p, []⟩]
+
+theorem consumed_emitOpt (p : List α) : consumed (emitOpt p) = p := by
+  unfold emitOpt; split
+  · rename_i h; rw [h]; rfl
+  · simp [consumed, consumedOf]
+theorem produced_emitOpt (p : List α) : produced (emitOpt p) = p := by
+  unfold emitOpt; split
+  · rename_i h; rw [h]; rfl
+  · simp [produced, producedOf]
+
+theorem withCtx_eq (c : Chunk α) (pre post : List α) :
+    withCtx c pre post = ⟨emitOpt pre ++ c.edits ++ emitOpt post, c.lstart - pre.length,
+      c.lend + post.length, c.rstart - pre.length, c.rend + post.length⟩ := by
+  cases pre <;> cases post <;> simp [withCtx, emitOpt]
+
+/-- what `AddContext` guarantees about the context lines of one chunk -/
+structure CtxFacts (L R : List α) (c : Chunk α) (pre post : List α) : Prop where
+  prel : pre.length < c.lstart
+  prer : pre.length < c.rstart
+  preL : span L (c.lstart - pre.length) c.lstart = pre
+  preR : span R (c.rstart - pre.length) c.rstart = pre
+  postl : c.lend + post.length ≤ L.length + 1
+  postr : c.rend + post.length ≤ R.length + 1
+  postL : span L c.lend (c.lend + post.length) = post
+  postR : span R c.rend (c.rend + post.length) = post
+
+theorem span_of_suffix_take {l p : List α} {s : Nat} (hs : 1 ≤ s) (hl : s ≤ l.length + 1)
+    (h : p <:+ l.take (s - 1)) : p.length < s ∧ span l (s - p.length) s = p := by
+  obtain ⟨t, ht⟩ := h
+  have hlen := congrArg List.length ht
+  rw [List.length_append, List.length_take] at hlen
+  have h1 : p.length < s := by omega
+  refine ⟨h1, ?_⟩
+  have hl2 : l = t ++ p ++ l.drop (s - 1) := by rw [ht, List.take_append_drop]
+  unfold span
+  have e1 : s - p.length - 1 = t.length := by omega
+  have e2 : s - (s - p.length) = p.length := by omega
+  rw [e1, e2]
+  conv => lhs; rw [hl2]
+  rw [List.append_assoc, List.drop_left, List.take_left]
+
+theorem span_of_prefix_drop {l p : List α} {s : Nat} (hs : 1 ≤ s) (hl : s ≤ l.length + 1)
+    (h : p <+: l.drop (s - 1)) : s + p.length ≤ l.length + 1 ∧ span l s (s + p.length) = p := by
+  obtain ⟨t, ht⟩ := h
+  have hlen := congrArg List.length ht
+  rw [List.length_append, List.length_drop] at hlen
+  refine ⟨by omega, ?_⟩
+  unfold span
+  have e2 : s + p.length - s = p.length := by omega
+  rw [e2, ← ht, List.take_left]
+
+theorem ctxFacts_of {L R : List α} {c : Chunk α} (hok : ChunkOK c L R) {pre post : List α}
+    (h1 : pre <:+ L.take (c.lstart - 1)) (h2 : pre <:+ R.take (c.rstart - 1))
+    (h3 : post <+: L.drop (c.lend - 1)) (h4 : post <+: R.drop (c.rend - 1)) :
+    CtxFacts L R c pre post := by
+  have o1 := hok.l1; have o2 := hok.l2; have o3 := hok.l3
+  have o4 := hok.r1; have o5 := hok.r2; have o6 := hok.r3
+  have a := span_of_suffix_take o1 (by omega) h1
+  have b := span_of_suffix_take o4 (by omega) h2
+  have c' := span_of_prefix_drop (by omega) o3 h3
+  have d := span_of_prefix_drop (by omega) o6 h4
+  exact ⟨a.1, b.1, a.2, b.2, c'.1, d.1, c'.2, d.2⟩
+
+theorem withCtx_ok {L R : List α} {c : Chunk α} (hok : ChunkOK c L R) {pre post : List α}
+    (h : CtxFacts L R c pre post) : ChunkOK (withCtx c pre post) L R := by
+  have o1 := hok.l1; have o2 := hok.l2; have o3 := hok.l3
+  have o4 := hok.r1; have o5 := hok.r2; have o6 := hok.r3
+  have p1 := h.prel; have p2 := h.prer; have p3 := h.postl; have p4 := h.postr
+  rw [withCtx_eq]
+  refine ⟨by show 1 ≤ c.lstart - pre.length; omega, by show c.lstart - pre.length ≤ c.lend + post.length; omega,
+    p3, by show 1 ≤ c.rstart - pre.length; omega, by show c.rstart - pre.length ≤ c.rend + post.length; omega,
+    p4, ?_, ?_⟩
+  · show consumed (emitOpt pre ++ c.edits ++ emitOpt post) =
+      span L (c.lstart - pre.length) (c.lend + post.length)
+    rw [consumed_append, consumed_append, consumed_emitOpt, consumed_emitOpt, hok.cons,
+      ← span_append L (a := c.lstart - pre.length) (b := c.lend) (by omega) (by omega) (by omega),
+      ← span_append L (a := c.lstart - pre.length) (b := c.lstart) (by omega) (by omega) o2,
+      h.preL, h.postL]
+  · show produced (emitOpt pre ++ c.edits ++ emitOpt post) =
+      span R (c.rstart - pre.length) (c.rend + post.length)
+    rw [produced_append, produced_append, produced_emitOpt, produced_emitOpt, hok.prod,
+      ← span_append R (a := c.rstart - pre.length) (b := c.rend) (by omega) (by omega) (by omega),
+      ← span_append R (a := c.rstart - pre.length) (b := c.rstart) (by omega) (by omega) o5,
+      h.preR, h.postR]
+
+theorem withCtx_isCtxOf (c : Chunk α) {pre post : List α} (h1 : pre.length ≤ c.lstart)
+    (h2 : pre.length ≤ c.rstart) : IsCtxOf c (withCtx c pre post) pre post := by
+  rw [withCtx_eq]
+  refine ⟨rfl, ?_, ?_, rfl, rfl⟩
+  · show c.lstart - pre.length + pre.length = c.lstart; omega
+  · show c.rstart - pre.length + pre.length = c.rstart; omega
+
+
+/-- the bound on the post-context: it ends before the next chunk (or the end of the input) -/
+def PostBound (L : List α) (c : Chunk α) (post : List α) : List (Chunk α) → Prop
+  | [] => c.lend + post.length ≤ L.length + 1
+  | d :: _ => post.length ≤ d.lstart - c.lend
+
+/-- the result of the bounded `AddContext` loop, chunk by chunk; `p` is `prevEnd` -/
+def CtxRel (L R : List α) (n : Nat) : Nat → List (Chunk α) → List (Chunk α) → Prop
+  | _, [], [] => True
+  | p, c :: cs, c' :: cs' => (∃ pre post, c' = withCtx c pre post ∧ CtxFacts L R c pre post ∧
+      pre.length ≤ n ∧ post.length ≤ n ∧ pre.length ≤ c.lstart - p ∧ PostBound L c post cs) ∧
+      CtxRel L R n c.lend cs cs'
+  | _, _, _ => False
+
+theorem addCtxLoop_rel [DecidableEq α] {L R : List α} (n : Nat) : ∀ (cs : List (Chunk α)) (p : Nat),
+    AllOK cs L R → ∃ cs', addCtxLoop true L R n p cs = some cs' ∧ CtxRel L R n p cs cs'
+  | [], p, _ => ⟨[], rfl, trivial⟩
+  | c :: cs, p, hok => by
+    have hc := hok c (List.mem_cons_self ..)
+    obtain ⟨cs', h1, h2⟩ := addCtxLoop_rel n cs c.lend (fun d hd => hok d (List.mem_cons_of_mem _ hd))
+    have o1 := hc.l1; have o2 := hc.l2; have o3 := hc.l3
+    have o4 := hc.r1; have o5 := hc.r2; have o6 := hc.r3
+    obtain ⟨a1, a2, a3⟩ := commonPrefix_spec n (L.take (c.lstart - 1)).reverse (R.take (c.rstart - 1)).reverse
+    obtain ⟨b1, b2, b3⟩ := commonPrefix_spec n (L.drop (c.lend - 1)) (R.drop (c.rend - 1))
+    have hf : findContext? L R c n = some
+        ((commonPrefix n (L.take (c.lstart - 1)).reverse (R.take (c.rstart - 1)).reverse).reverse,
+          commonPrefix n (L.drop (c.lend - 1)) (R.drop (c.rend - 1))) := by
+      unfold findContext? ctxPre? ctxPost
+      rw [if_neg (by omega)]; rfl
+    generalize hpre : (commonPrefix n (L.take (c.lstart - 1)).reverse (R.take (c.rstart - 1)).reverse).reverse = pre at hf
+    generalize hpost : commonPrefix n (L.drop (c.lend - 1)) (R.drop (c.rend - 1)) = post at hf b1 b2 b3
+    have s1 : pre <:+ L.take (c.lstart - 1) := by
+      rw [← hpre, ← List.reverse_prefix, List.reverse_reverse]; exact a2
+    have s2 : pre <:+ R.take (c.rstart - 1) := by
+      rw [← hpre, ← List.reverse_prefix, List.reverse_reverse]; exact a3
+    have s0 : pre.length ≤ n := by rw [← hpre, List.length_reverse]; exact a1
+    rw [addCtxLoop.eq_def]; simp only [hf]
+    simp only [if_true, h1, Option.map_some]
+    refine ⟨_, rfl, ⟨_, _, rfl, ?_, ?_, ?_, ?_, ?_⟩, h2⟩
+    · exact ctxFacts_of hc ((List.drop_suffix _ _).trans s1) ((List.drop_suffix _ _).trans s2)
+        ((List.take_prefix _ _).trans b2) ((List.take_prefix _ _).trans b3)
+    · rw [List.length_drop]; omega
+    · rw [List.length_take]; omega
+    · rw [List.length_drop]; omega
+    · cases cs with
+      | nil => simp only [PostBound, List.length_take]; omega
+      | cons d cs => simp only [PostBound, List.length_take]; omega
+
+
+theorem ctxFacts_nil {L R : List α} {c : Chunk α} (hok : ChunkOK c L R) : CtxFacts L R c [] [] := by
+  have o1 := hok.l1; have o2 := hok.l2; have o3 := hok.l3
+  have o4 := hok.r1; have o5 := hok.r2; have o6 := hok.r3
+  exact ⟨o1, o4, span_self .., span_self .., o3, o6, span_self .., span_self ..⟩
+
+theorem withCtx_nil (c : Chunk α) : withCtx c [] [] = c := rfl
+
+theorem ctxRel_self {L R : List α} (n : Nat) : ∀ (cs : List (Chunk α)) (p : Nat), AllOK cs L R →
+    CtxRel L R n p cs cs
+  | [], _, _ => trivial
+  | c :: cs, p, hok => by
+    have hc := hok c (List.mem_cons_self ..)
+    refine ⟨⟨[], [], rfl, ctxFacts_nil hc, Nat.zero_le _, Nat.zero_le _, Nat.zero_le _, ?_⟩,
+      ctxRel_self n cs c.lend (fun d hd => hok d (List.mem_cons_of_mem _ hd))⟩
+    cases cs with
+    | nil => exact hc.l3
+    | cons d cs => exact Nat.zero_le _
+
+theorem addContext_rel [DecidableEq α] {L R : List α} (n : Nat) (cs : List (Chunk α))
+    (hok : AllOK cs L R) :
+    ∃ cs', addContextChunks L R n cs = some cs' ∧ CtxRel L R n 1 cs cs' := by
+  unfold addContextChunks addContextWith
+  by_cases h : n = 0 ∨ cs.length = 0
+  · rw [if_pos h]; exact ⟨cs, rfl, ctxRel_self n cs 1 hok⟩
+  · rw [if_neg h]; exact addCtxLoop_rel n cs 1 hok
+
+theorem ctxRel_ok {L R : List α} {n : Nat} : ∀ (cs cs' : List (Chunk α)) (p : Nat),
+    AllOK cs L R → CtxRel L R n p cs cs' → AllOK cs' L R ∧ AllCtxOf n cs cs'
+  | [], [], _, _, _ => ⟨(by intro c hc; cases hc), trivial⟩
+  | [], _ :: _, _, _, h => h.elim
+  | _ :: _, [], _, _, h => h.elim
+  | c :: cs, c' :: cs', p, hok, h => by
+    obtain ⟨⟨pre, post, rfl, hf, h1, h2, h3, h4⟩, hrel⟩ := h
+    have hc := hok c (List.mem_cons_self ..)
+    obtain ⟨ih1, ih2⟩ := ctxRel_ok cs cs' c.lend (fun d hd => hok d (List.mem_cons_of_mem _ hd)) hrel
+    refine ⟨?_, ⟨pre, post, h1, h2, withCtx_isCtxOf c (Nat.le_of_lt hf.prel) (Nat.le_of_lt hf.prer)⟩, ih2⟩
+    intro d hd
+    rcases List.mem_cons.1 hd with rfl | hd
+    · exact withCtx_ok hc hf
+    · exact ih1 d hd
+
+/-- context stays inside the gap between the original chunks -/
+theorem ctxRel_gap {L R : List α} {n : Nat} : ∀ (cs cs' : List (Chunk α)) (p : Nat),
+    Ascending cs → CtxRel L R n p cs cs' →
+    ∀ (i : Nat) (c d c' d' : Chunk α), cs[i]? = some c → cs[i + 1]? = some d → cs'[i]? = some c' →
+      cs'[i + 1]? = some d' → c'.lend ≤ d.lstart ∧ c.lend ≤ d'.lstart
+  | [], [], _, _, _ => by intro i c d c' d' h; cases h
+  | [], _ :: _, _, _, h => h.elim
+  | _ :: _, [], _, _, h => h.elim
+  | [_], [_], _, _, _ => by
+    intro i c d c' d' _ h; cases i <;> cases h
+  | [_], _ :: _ :: _, _, _, h => h.2.elim
+  | _ :: _ :: _, [_], _, _, h => h.2.elim
+  | a :: b :: cs, a' :: b' :: cs', p, hasc, h => by
+    intro i c d c' d' h1 h2 h3 h4
+    cases i with
+    | zero =>
+      simp only [List.getElem?_cons_zero, List.getElem?_cons_succ, Option.some.injEq, Nat.zero_add] at h1 h2 h3 h4
+      subst h1 h2 h3 h4
+      obtain ⟨⟨pre, post, rfl, hf, q1, q2, q3, q4⟩, ⟨pre2, post2, rfl, hf2, r1, r2, r3, r4⟩, _⟩ := h
+      have := hasc.1
+      simp only [PostBound] at q4
+      rw [withCtx_eq, withCtx_eq]
+      show a.lend + post.length ≤ b.lstart ∧ a.lend ≤ b.lstart - pre2.length
+      omega
+    | succ i =>
+      simp only [List.getElem?_cons_succ] at h1 h2 h3 h4
+      exact ctxRel_gap (b :: cs) (b' :: cs') a.lend hasc.2.2 h.2 i c d c' d' h1 h2 h3 h4
+
+
 end MdsVerif.Proofs.Mdiff
